@@ -375,11 +375,14 @@ def matchesAll : List KB → List Bound → Bool
   | k :: ks, b :: bs => k.matches b && matchesAll ks bs
   | _, _ => false
 
+/-- `i not in dimensions and np.isscalar(bounds[i])`. -/
+def isWild (dims : List Nat) (i : Nat) (b : Bound) : Bool := !dims.contains i && !b.isRange
+
 /-- `bounds_for_cache(bounds, dimensions)`, positions counted from `i`. -/
 def boundsForCacheFrom (dims : List Nat) : Nat → List Bound → List KB
   | _, [] => []
   | i, b :: bs =>
-    (if !dims.contains i && !b.isRange then KB.any else KB.lit b) :: boundsForCacheFrom dims (i + 1) bs
+    (if isWild dims i b then KB.any else KB.lit b) :: boundsForCacheFrom dims (i + 1) bs
 
 def boundsForCache (bs : List Bound) (dims : List Nat) : List KB := boundsForCacheFrom dims 0 bs
 
@@ -536,7 +539,7 @@ def cartInt : List (List Int) → List (List Int)
 
 /-- `c` is the value of *a* nearest source pixel (any tie rule). -/
 def sampleOk (w : World) (r : Req) (pt : List Rat) (c : Cell) : Bool :=
-  (cartInt ((linkedPos w r pt).map nearestInts)).any fun idx => cellAt w r idx == c
+  (cartInt ((linkedPos w r pt).map nearestInts)).any fun idx => decide (cellAt w r idx = c)
 
 /-- Some coordinate of the linked position lies exactly half-way between two pixels. -/
 def isTie (w : World) (r : Req) (pt : List Rat) : Bool :=
